@@ -276,9 +276,9 @@ def eval_model_and_replay(run, name, cfg, pid, acts=(None,), timeout=2400, sampl
     return recs
 
 
-def eval_trace(run, name, n, seed, pid, depth=4, shards=16):
+def eval_trace(run, name, n, seed, pid, depth=4, shards=16, threads=1):
     path = os.path.join(tlc.WORK, "eval-trace-%s.ndjson" % name)
-    core.run_vh(["eval-record", "--seed", seed, "--n", n, "--depth", depth, "--out", path], timeout=1800)
+    core.run_vh(["eval-record", "--seed", seed, "--n", n, "--depth", depth, "--out", path] + (["--threads", threads] if threads > 1 else []), timeout=1800)
     recs = core.read_ndjson(path)
     parts, k = core.shard(recs, shards)
     files = []
